@@ -45,7 +45,7 @@ impl Topology {
         index: &usize,
         radius: &f32,
     ) -> Option<IntVector> {
-        if *radius < 0.0 || *ndim < 1 || *ntotal < 1 || *index > *ntotal {
+        if !(*radius >= 0.0) || *ndim < 1 || *ntotal < 1 || *index >= *ntotal {
             return None;
         }
         let mut nedge = f32::ceil((*ntotal as f32).powf(1.0 / *ndim as f32)) as usize;
